@@ -54,6 +54,9 @@ def obligations(tier):
     for N, K, given, n_iter in fits:
         for assort in (False, True):
             out.append({"family": "fit", "N": N, "K": K, "given": given, "n_iter": n_iter, "assortative": assort})
+    for assort in (False, True):
+        out.append({"family": "fit", "N": 3, "K": 2, "given": "u", "n_iter": 1, "assortative": assort,
+                    "w_prior": "array"})
     out.append({"family": "log_kappa"})
     return out
 
@@ -268,7 +271,10 @@ def run_obligation(spec):
             old = mm.binary_incidence_matrix
             mm.binary_incidence_matrix = dense_incidence
             try:
-                m = mm.HyMMSBM(K=K, u=u, w=w, assortative=assort, max_hye_size=3, seed=spec.get("seed", 0))
+                extra_kw = {}
+                if spec.get("w_prior") == "array":
+                    extra_kw["w_prior"] = np.ones((K, K)) * 2.0
+                m = mm.HyMMSBM(K=K, u=u, w=w, assortative=assort, max_hye_size=3, seed=spec.get("seed", 0), **extra_kw)
                 Ctx.denominators = []
                 m.fit(h, n_iter=n_iter)
             finally:
